@@ -61,6 +61,17 @@ def gen(ctx, rnd, quick):
                 wrong = (s.idx + 1) % len(s.tx[1])
                 cases.append((S.spend_line(s.tx, s.txin, fl, select=wrong), {"kind": kind, "label": "select-wrong", "flags": fl}))
             cases.append((S.spend_line(s.tx, s.txin, fl, select=len(s.tx[1]) + rnd.randrange(3)), {"kind": kind, "label": "select-out-of-range", "flags": fl}))
+    # hash-type bytes outside the six defined ones: consensus-valid for ECDSA when STRICTENC is off (the mode is byte & 0x1f,
+    # ANYONECANPAY is bit 7); with STRICTENC they are refused before hashing
+    for kind in S.KINDS:
+        if kind.startswith("p2tr"): continue
+        for rep in range(6 if quick else 120):
+            ht = rnd.choice((0, 4, 6, 7, 0x12, 0x13, 0x1b, 0x1e, 0x1f, 0x20, 0x22, 0x43, 0x86, 0x87, 0x9b, 0xe2, 0xff, rnd.randrange(256)))
+            s = S.build(rnd, kind, {"hashtype": ht})
+            fl = rnd.choice((R.STD & ~(1 << FB["STRICTENC"]), R.STD & ~(1 << FB["STRICTENC"]), R.STD, 0))
+            strict_refuses = bool(fl >> FB["STRICTENC"] & 1) and ht not in (1, 2, 3, 0x81, 0x82, 0x83)
+            cases.append((S.spend_line(s.tx, s.txin, fl), {"kind": kind, "label": "odd-hashtype-refused" if strict_refuses else "valid",
+                                                          "built_valid": s.valid and not strict_refuses and fl != 0, "flags": fl}))
     # hand-built scripts: the rules around the scripts rather than inside them
     def add(name, spk, ss=b"", wit=(), flags=R.STD, finding=None, **kw):
         tx, ftx = S.custom(rnd, spk, ss, wit, **kw)
@@ -232,7 +243,9 @@ def doc_pairs():
 def verdict_compare(ctx, stream, cases):
     """cases: (SPEND line, meta).  Correspondence of set-up and every step (implementation vs model), and the verdict the
     finished session amounts to against consensus validation (specification)."""
-    lines = [c[0] for c in cases]
+    # SPENDR: as SPEND, and a failed step is asked for twice more (the session must not get past a failed check)
+    lines = [re.sub(r"^SPEND ", "SPENDR ", c[0]) for c in cases]
+    cases = [(l, c[1]) for l, c in zip(lines, cases)]
     impl = ctx.harness_sharded(lines)
     model = ctx.driver_sharded(lines, "model")
     spec = ctx.driver_sharded(lines, "spec")
@@ -244,6 +257,8 @@ def verdict_compare(ctx, stream, cases):
     nbad = 0
     for (line, meta), im, mo, sp in zip(cases, impl, model, spec):
         vi = verdict_of_impl(im, meta["flags"])
+        if re.search(r" retry=\S*OK", im):
+            vi = "VALID-ON-RETRY"
         mm = re.search(r"verdict=(\S+)$", mo)
         vm = norm(mm.group(1)) if mm else "INVALID"
         vs = norm(sp) if sp.startswith("verdict=") else "?"
